@@ -16,7 +16,7 @@ META = {
     "technique": "Lean 4 theorems by structural induction over the type grammar (coercion soundness, no str/sequence confusion, "
     "idempotence) over class tables regenerated from the running interpreter + differential correspondence",
     "text": "Lean theorems about a model of TypeParser.coerce (pydra/utils/typing.py), for every well-formed type of the grammar "
-    "(classes of a 28-class universe, Any, Union, list/tuple/set/frozenset/dict/abstract-container generics, tuple[T, ...], "
+    "(classes of a 32-class universe, Any, Union, list/tuple/set/frozenset/dict/abstract-container generics, tuple[T, ...], "
     "MultiInputObj[T]) of any depth and every value of any size, with or without superclass_auto_cast: an accepted value is stored "
     "as a value that conforms to the declared type, element types included (C20_sound_partial, C20_field_sound_partial for the "
     "attrs converter of make_converter); a str is only passed through, turned into a path-like atom or wrapped whole by "
@@ -32,7 +32,7 @@ META = {
     "(idempotence) and a real task-field assignment against the Lean driver on generated (type, value) cases; every constructor "
     "call the model makes is re-checked against the interpreter (one rfl theorem per observed call).",
     "note": "Trusted: Lean kernel; hand-written model of coerce/expand_and_coerce (tie = differential + regenerated class tables + "
-    "constructor samples + AST facts of make_converter); class universe is finite (no fileformats/numpy classes, no ty.Type, no "
+    "constructor samples + AST facts of make_converter); class universe is finite (32 classes incl. the fileformats field classes named by COERCIBLE_DEFAULT; no File/Directory/FsObject — their constructors depend on the file system —, no numpy classes, no ty.Type, no "
     "NOTHING/LazyField/StateArray pass-through); generator reach (type depth <= 3).",
     "rule": "case = (superclass_auto_cast, type, value); distinct by canonical JSON; non-trivial = the type is generic/union or the "
     "value is a container or the stored value differs from the assigned one",
